@@ -4,7 +4,7 @@ from compound_common import PoolCheck, SCHEDULERS
 def members(body):
     """-> list of (size, bare) ; a bare member has size 0"""
     out = []
-    for m in body.split(";"):
+    for m in body.replace("(", ";").replace(")", ";").split(";"):
         w = m.split()
         if not w:
             continue
@@ -53,12 +53,18 @@ class C15(PoolCheck):
         "tasks inside a member are independent in the model (the chains of the test taskpool only restrict the real schedule); "
         "the model that is run against the code is the one at CompoundCode.code_precharge (false = unchanged code).  The "
         "theorems quantify over PTG members of every size (0 included); bare members are in the executable model (stepB, "
-        "conservative: C15_model_with_bare_members_conservative) and are tied by the differential run and the oracle only.")
+        "conservative: C15_model_with_bare_members_conservative) and are tied by the differential run and the oracle only.  "
+        "NESTED compositions (an element that is itself a compound) have an executable tree model (CompoundTree.v: one detector "
+        "and counter set per compound node, the callback chain up through the ancestors and down into first elements); that "
+        "its history equals the list semantics of the flattened composition is NOT proved in general: it is checked by "
+        "exhaustive exploration of all interleavings on small trees (Examples C15_nested_equals_flat_*), by the model driver on "
+        "every generated nested case (tree run vs flattened-list run under the same schedule) and against the code.")
     technique = ("Coq proof (refinement to an abstract machine + invariants, all schedules) + differential run of real compositions "
                  "of generated PTG taskpools (stamped bodies, enqueue and completion callbacks) against the extracted model")
     rule = ("compositions of 1..20 members built with parsec_compose, member = compound_pool.jdf with 0..24 tasks in 1..4 chains or a "
             "bare parsec_taskpool_t without any work (terminates re-entrantly inside parsec_context_add_taskpool), empty and bare "
-            "members at first / middle / last positions and in runs; "
+            "members at first / middle / last positions and in runs; NESTED compositions (an element that is itself a compound: "
+            "right-nested, compound + compound, depth up to 3), observed on the flattened sequence of leaves; "
             "modes: add/start/context_wait, start/add/taskpool_wait(compound)/context_wait, add/start/taskpool_wait/context_wait; "
             "threads 1..8, schedulers of the list; non-trivial = at least two members with tasks; distinct = member sizes + mode")
     trusted = ("harness/h_compound.c derives seq/clast/tpw from stamps of one global atomic counter; the first body executed waits "
@@ -77,7 +83,9 @@ class C15(PoolCheck):
                 cfgs.append(c)
         return cfgs
 
-    def one(self, r, cfg, n=None, mode=None):
+    def one(self, r, cfg, n=None, mode=None, nest=None):
+        if nest is None:
+            nest = r.chance(1, 3)
         if n is None:
             n = r.pick([1, 2, 2, 3, 3, 4, 5, r.range(6, 12), r.range(13, 20), 20])
         if mode is None:
@@ -93,7 +101,44 @@ class C15(PoolCheck):
             nt = r.pick([0, 1, 1, 2, 3, r.range(4, 8), r.range(9, 24)])
             w = r.pick([1, 1, 2, 3, 4, 64])
             ms.append("%d %d" % (nt, w))
-        return "cmp %d %s %d %d %d | %s" % (cfg[0], cfg[1], mode, r.pick([0, 1 + r.below(1000)]), r.below(100000), " ; ".join(ms))
+        body = " ; ".join(ms)
+        if nest and n >= 3:
+            body = self.nest(r, ms)
+        return "cmp %d %s %d %d %d | %s" % (cfg[0], cfg[1], mode, r.pick([0, 1 + r.below(1000)]), r.below(100000), body)
+
+    def nest(self, r, ms):
+        """a composition tree over the members ms (in order), as parsec_compose can build it: the first element of every
+        group is a leaf, later elements are leaves or groups; right-nested, compound + compound, depth up to 3"""
+        def group(lo, hi, depth):
+            # members lo..hi-1, at least 2
+            parts = [ms[lo]]
+            i = lo + 1
+            while i < hi:
+                left = hi - i
+                if depth < 3 and left >= 2 and r.chance(1, 2):
+                    k = r.range(2, left)
+                    parts.append("( " + group(i, i + k, depth + 1) + " )")
+                    i += k
+                else:
+                    parts.append(ms[i])
+                    i += 1
+            return " ; ".join(parts)
+        style = r.below(3)
+        n = len(ms)
+        if style == 0:                                  # fully right-nested: A ; ( B ; ( C ; D ) )
+            out = ms[n - 1]
+            depth = 0
+            for j in range(n - 2, -1, -1):
+                if depth < 3 and j > 0:
+                    out = "( " + ms[j] + " ; " + out + " )"
+                    depth += 1
+                else:
+                    out = ms[j] + " ; " + out
+            return out
+        if style == 1 and n >= 4:                       # compound + compound: A ; B ; ( C ; D ... )
+            k = r.range(2, n - 2)
+            return " ; ".join(ms[:k]) + " ; ( " + group(k, n, 2) + " )"
+        return group(0, n, 1)
 
     def cases(self):
         r = self.rng
@@ -110,6 +155,11 @@ class C15(PoolCheck):
             out.append("cmp %d %s 0 0 5 | 2 1 ; b ; 3 2" % cfg)
             out.append("cmp %d %s 2 7 6 | b ; 1 1 ; b ; b ; 2 2 ; b" % cfg)
             out.append("cmp %d %s 1 0 7 | b ; b ; b" % cfg)
+            # nested compositions: an element that is itself a compound
+            out.append("cmp %d %s 0 0 8 | 2 1 ; ( 1 1 ; 3 2 ) ; 1 1" % cfg)
+            out.append("cmp %d %s 2 4 9 | 1 1 ; ( b ; 2 1 ; ( 0 1 ; b ) ) ; ( 1 1 ; 2 2 )" % cfg)
+            out.append(self.one(r, cfg, n=r.range(4, 9), nest=True))
+            out.append(self.one(r, cfg, n=r.range(3, 6), nest=True))
             for _ in range(per):
                 out.append(self.one(r, cfg))
         return out
@@ -146,6 +196,10 @@ class C15(PoolCheck):
         hd, body = case.split("|", 1)
         mode = int(hd.split()[3])
         sizes = [m[0] for m in members(body)]
+        if obs.startswith("<hang") and "(" in body:
+            return ("nested-compound-never-completes",
+                    "the composition contains an element that is itself a compound and never completes (parsec_context_wait / "
+                    "parsec_taskpool_wait do not return): " + obs[:80])
         if obs.startswith("<"):
             return ("no-observation", "the run gave no observation: " + obs[:100])
         d = kv(obs)
